@@ -114,27 +114,29 @@ Definition ow_case_bstr (a : list nat) (k : nat) :=
     end).
 
 (* ---- builder.  args: appends, appends after clear *)
-Fixpoint ow_bb_append_n (n : nat) (bb : ow_bb) (acc : list nat) : ow_M (ow_bb * list nat) :=
+Fixpoint ow_bb_append_gen_n (fixed : bool) (n : nat) (bb : ow_bb) (acc : list nat) : ow_M (ow_bb * list nat) :=
   match n with
   | O => ow_ret (bb, acc)
-  | S m => r <- ow_builder_append_mem bb ;; ow_bb_append_n m (snd r) (acc ++ [ow_b2n (fst r)])
+  | S m => r <- ow_builder_append_mem_gen fixed bb ;; ow_bb_append_gen_n fixed m (snd r) (acc ++ [ow_b2n (fst r)])
   end.
-Definition ow_case_builder (a : list nat) (k : nat) :=
+Definition ow_case_builder_gen (fixed : bool) (a : list nat) (k : nat) :=
   ow_case (ow_ret tt) k (fun _ =>
     bb <- ow_builder_create ;;
     match bb with
     | None => ow_ret [9]
     | Some bb =>
-      r <- ow_bb_append_n (ow_arg a 0) bb [] ;;
+      r <- ow_bb_append_gen_n fixed (ow_arg a 0) bb [] ;;
       s <- ow_builder_to_str (fst r) ;;
       ow_free s ;;;
       b1 <- ow_builder_clear (fst r) ;;
-      r2 <- ow_bb_append_n (ow_arg a 1) b1 (snd r ++ [ow_nullbit s]) ;;
+      r2 <- ow_bb_append_gen_n fixed (ow_arg a 1) b1 (snd r ++ [ow_nullbit s]) ;;
       s2 <- ow_builder_to_str (fst r2) ;;
       ow_free s2 ;;;
       ow_builder_destroy (Some (fst r2)) ;;;
       ow_ret (snd r2 ++ [ow_nullbit s2])
     end).
+
+Definition ow_case_builder := ow_case_builder_gen true.
 
 (* ---- hooks.  args: registrations; then copy, destroy both *)
 Fixpoint ow_hook_reg_n (n : nat) (h : option ow_hook) (acc : list nat) : ow_M (option ow_hook * list nat) :=
@@ -154,24 +156,27 @@ Definition ow_case_hook (a : list nat) (k : nat) :=
 Definition ow_case_connp_create (a : list nat) (k : nat) :=
   ow_case (ow_ret tt) k (fun _ => p <- ow_connp_create ;; ow_connp_destroy_all p ;;; ow_ret [ow_optbit p]).
 
-Fixpoint ow_tx_create_n (n : nat) (p : ow_connp) (acc : list nat) : ow_M (ow_connp * list nat) :=
+Fixpoint ow_tx_create_gen_n (fixed : bool) (n : nat) (p : ow_connp) (acc : list nat) : ow_M (ow_connp * list nat) :=
   match n with
   | O => ow_ret (p, acc)
   | S m =>
     match ocp_conn p with
     | None => ow_ret (p, acc ++ [9])
-    | Some c => r <- ow_tx_create (ocp_self p) c ;; ow_tx_create_n m (ocp_set_conn p (Some (snd r))) (acc ++ [ow_b2n (fst r)])
+    | Some c => r <- ow_tx_create_gen fixed (ocp_self p) c ;;
+                ow_tx_create_gen_n fixed m (ocp_set_conn p (Some (snd r))) (acc ++ [ow_b2n (fst r)])
     end
   end.
+Definition ow_tx_create_n := ow_tx_create_gen_n true.
 
 (* args: transactions before, transactions observed *)
-Definition ow_case_tx_create (a : list nat) (k : nat) :=
+Definition ow_case_tx_create_gen (fixed : bool) (a : list nat) (k : nat) :=
   ow_case (p <- ow_connp_create ;;
            match p with None => ow_ret None | Some p => r <- ow_tx_create_n (ow_arg a 0) p [] ;; ow_ret (Some (fst r)) end) k
     (fun p => match p with
               | None => ow_ret [9]
-              | Some p => r <- ow_tx_create_n (ow_arg a 1) p [] ;; ow_connp_destroy_all (Some (fst r)) ;;; ow_ret (snd r)
+              | Some p => r <- ow_tx_create_gen_n fixed (ow_arg a 1) p [] ;; ow_connp_destroy_all (Some (fst r)) ;;; ow_ret (snd r)
               end).
+Definition ow_case_tx_create := ow_case_tx_create_gen true.
 
 (* the transaction being parsed (connp->in_tx) is the last one of the connection *)
 Definition ow_split_last {A} (l : list A) : option (list A * A) :=
@@ -332,3 +337,7 @@ Definition ow_run_case (fn : nat) (a : list nat) (k : nat) : ow_res (list nat) :
   | 16 => ow_case_log a k
   | _ => OwOk [] (ow_init ow_never)
   end.
+
+(* observers used by the Examples of Props/Properties_C18.v *)
+Definition ow_res_fault {A} (r : ow_res A) : nat := match r with OwFault c _ => c | OwOk _ _ => 0 end.
+Definition ow_res_leaked {A} (r : ow_res A) : nat := match r with OwFault _ s => length (oos_live s) | OwOk _ s => length (oos_live s) end.
